@@ -147,3 +147,12 @@ pub unsafe fn ctl_inline_asm() -> u64 {
     std::arch::asm!("mov {}, 5", out(reg) x);
     x
 }
+
+
+// ---- precision laundering (R-NOWIDEN)
+pub fn ctl_widen_f32() -> f64 {
+    std::f32::consts::FRAC_1_SQRT_2 as f64
+}
+pub fn ok_narrow_f64() -> f32 {
+    (0.5f64).sqrt() as f32
+}
